@@ -50,7 +50,14 @@ func TickToSqrtPrice(tickIndex int64, tickParams TickParams) (math.LegacyDec, er
 	return sqrtPrice, nil
 }
 
-func TickToMultipliedPrice(tickIndex int64, tickParams TickParams) (math.LegacyDec, error) {
+func TickToMultipliedPrice(tickIndex int64, tickParams TickParams) (price math.LegacyDec, err error) {
+	// Pow and Quo panic when the result leaves the representable range (huge |tickIndex|), when the pool's price
+	// ratio is not positive and when the power rounds to zero: the tick has no price then.
+	defer func() {
+		if r := recover(); r != nil {
+			price, err = math.LegacyDec{}, ErrPriceOutOfBound
+		}
+	}()
 	priceRatio, err := math.LegacyNewDecFromStr(tickParams.PriceRatio)
 	if err != nil {
 		return math.LegacyDec{}, err
